@@ -89,7 +89,7 @@ pub fn make_builder_keys(
 
     locales.merge_plurals(warnings)?;
 
-    resolve_foreign_keys(&locales, &cfg_file.default, foreign_keys_paths.into_inner())?;
+    resolve_foreign_keys(&locales, cfg_file, foreign_keys_paths.into_inner())?;
 
     check_locales(locales, &cfg_file.extensions, warnings)
 }
@@ -114,7 +114,7 @@ pub fn parse_locales(
 
 fn resolve_foreign_keys(
     values: &LocalesOrNamespaces,
-    default_locale: &Key,
+    cfg_file: &ConfigFile,
     foreign_keys_paths: BTreeSet<(Key, KeyPath)>,
 ) -> Result<()> {
     for (locale, value_path) in foreign_keys_paths {
@@ -124,7 +124,7 @@ fn resolve_foreign_keys(
         let merged_plural = get_merged_plural_at(values, &locale, &value_path);
         value.or(merged_plural).unwrap_at("resolve_foreign_keys_1");
         for value in value.into_iter().chain(merged_plural) {
-            value.resolve_foreign_key(values, &locale, default_locale, &value_path)?;
+            value.resolve_foreign_key(values, &locale, cfg_file, &value_path)?;
         }
     }
     Ok(())
